@@ -218,6 +218,7 @@ impl Profile {
             }
             "C02" => {
                 f.name = "C02";
+                f.gen_pct = 10;
                 f.edit_pct = 55;
                 f.max_ops = 12;
                 f.cycle_pct = 1;
@@ -225,6 +226,7 @@ impl Profile {
             }
             "C03" => {
                 f.name = "C03";
+                f.gen_pct = 5;
                 f.edit_pct = 55;
                 f.restat_pct = 10;
                 f.cycle_pct = 1;
@@ -545,7 +547,7 @@ pub fn gen_project(r: &mut Rng, pf: &Profile) -> Project {
         } else {
             steps[k].imp.push(name);
         }
-        let via = steps[p].outs[r.below(steps[p].outs.len())].clone();
+        let via = g.clone();
         if !steps[k].exp.contains(&via) && !steps[k].imp.contains(&via) && !steps[k].oo.contains(&via) {
             steps[k].oo.push(via);
         }
